@@ -319,6 +319,16 @@ func (e *c15Engine) client(l *c15Live) {
 	if sp.Turns != nil {
 		e.clientTurns(l, conn)
 		conn.Close() // done or given up: lets the far end finish at once
+		l.mu.Lock()
+		if l.TurnFail != "" && l.claim == 0 {
+			// the client waited out the progress bound and the far end was never even connected
+			l.claim = 2
+			l.NotBridged = true
+		}
+		l.mu.Unlock()
+		if l.NotBridged {
+			return
+		}
 		select {
 		case <-l.srvDone:
 		case <-time.After(e.stall):
@@ -470,8 +480,11 @@ func (e *c15Engine) judgeTurns(l *c15Live) (cands []c15Candidate, bad bool) {
 	}
 	// which message is being held back: the request (not all of it has reached the far end) or the reply
 	dir := "s2c"
-	if l.C2S.Recv < l.C2S.Sent || l.NotBridged {
+	if l.C2S.Recv < l.C2S.Sent || (l.NotBridged && l.C2S.Sent > 0) {
 		dir = "c2s"
+	}
+	if l.NotBridged {
+		l.TurnFail += "; the TCP server was never connected to for this client"
 	}
 	what := fmt.Sprintf("%s; at that point client->server: %d sent, %d received by the server; server->client: %d sent, %d received by the client; nothing else was in flight and neither end had closed",
 		l.TurnFail, l.C2S.Sent, l.C2S.Recv, l.S2C.Sent, l.S2C.Recv)
@@ -606,7 +619,31 @@ func c15Plan(r *core.Run) [][]*c15Conn {
 		rounds = append(rounds, round)
 	}
 	rounds = append(rounds, c15TurnPlan(r, rng, len(concs)))
+	rounds = append(rounds, c15GreetingPlan(r, rng, len(concs)+1)...)
 	return rounds
+}
+
+// c15GreetingPlan: the server speaks first (a greeting banner as in SMTP, SSH, MySQL). The client
+// connects and only reads until it has the whole greeting, then the exchange continues in turns.
+// One connection per round, because the far end can only tell which connection it has accepted
+// from bytes the client sends - and here the client sends none at first.
+func c15GreetingPlan(r *core.Run, rng *rand.Rand, round int) [][]*c15Conn {
+	greetings := []int{275, 1, 65536}
+	if !r.Quick() {
+		greetings = append(greetings, 32768, 17, 100000, 1+rng.Intn(5000), 32768*(1+rng.Intn(4)))
+	}
+	var out [][]*c15Conn
+	for i, g := range greetings {
+		turns := []c15Turn{{Req: 0, Rep: g}, {Req: 20 + i, Rep: 300}, {Req: 1, Rep: 1}, {Req: 1000 + rng.Intn(3000), Rep: 32768}, {Req: 5, Rep: 17}}
+		sp := &c15Conn{Idx: 4000000 + i, Round: round + i, Conc: 1, ServerFirst: true, Turns: turns}
+		for _, t := range turns {
+			sp.C2S.Len += int64(t.Req)
+			sp.S2C.Len += int64(t.Rep)
+		}
+		sp.Class = fmt.Sprintf("request-response|server-speaks-first|greeting:%d|client-waits-for-it", g)
+		out = append(out, []*c15Conn{sp})
+	}
+	return out
 }
 
 // c15TurnPlan: long-lived request/response connections whose messages end exactly on, just
@@ -897,7 +934,10 @@ func c15Streams(r *core.Run, bins bridgeBins) ([]*core.Proc, func()) {
 		}
 		sp := *c.l.Spec
 		sp.Idx += 1000000
-		sp.Conc, sp.ServerFirst = 1, false
+		sp.Conc = 1
+		if len(sp.Turns) == 0 || sp.Turns[0].Req > 0 {
+			sp.ServerFirst = false // (a connection on which the client sends nothing at first can only be told apart while it is alone)
+		}
 		solo := e.round([]*c15Conn{&sp})[0]
 		cs, bad := e.judge(solo, true)
 		switch {
@@ -1470,7 +1510,7 @@ func c15E2(r *core.Run, bin string) {
 
 // C15 — the TCP bridge carries byte streams intact in both directions.
 func C15(r *core.Run) {
-	r.SetRule("E1: harness TCP clients -> real tcp-bridge-frontend -> real tcp-bridge-backend -> harness TCP server, rounds of 1/4/16/48 concurrent connections, both directions at once, each direction an independent stream header+PRNG(seed,conn,dir) written with sizes {1,2,1023,1024,1025,4096,32768,65537,random} and read with buffers {1,7,1024,65536}; every read is compared with the regenerated stream (prefix), length+SHA-256 at the end; plus one connection per direction whose receiver stalls 13-14 s while 32-48 MiB are pushed at it (flow control must hold the sender, every byte must arrive) and a connection that lives 32 s (thorough: both directions, also 63 s) with a trickling receiver so that data is in flight all the time; and request/response connections (one message at a time, the peer waits for all of it before answering) with message sizes on and around multiples of 32 KiB; class = (concurrency, who speaks first, per direction write size/read buffer/length class). Passthrough: grammar-generated requests of C02 plus websocket upgrades on other paths / plain and other-protocol requests on the streaming path through the backend binary to a raw recording backend under the request fidelity oracle, plus three uploads whose bodies take 11-14 s to arrive (1 KiB/s, a 10.7 s pause, chunked) and one response produced over 14 s (observed only). E2: connection.Handler/DialWebsocket/WebsocketNetConn in-process with empty writes, 1-byte reads, raw gorilla peers interleaving binary/ping/pong frames, small Reads followed by io.Copy / bufio.Reader.WriteTo on the same connection, single writes up to 16 MiB")
+	r.SetRule("E1: harness TCP clients -> real tcp-bridge-frontend -> real tcp-bridge-backend -> harness TCP server, rounds of 1/4/16/48 concurrent connections, both directions at once, each direction an independent stream header+PRNG(seed,conn,dir) written with sizes {1,2,1023,1024,1025,4096,32768,65537,random} and read with buffers {1,7,1024,65536}; every read is compared with the regenerated stream (prefix), length+SHA-256 at the end; plus one connection per direction whose receiver stalls 13-14 s while 32-48 MiB are pushed at it (flow control must hold the sender, every byte must arrive) and a connection that lives 32 s (thorough: both directions, also 63 s) with a trickling receiver so that data is in flight all the time; and request/response connections (one message at a time, the peer waits for all of it before answering) with message sizes on and around multiples of 32 KiB, including connections on which the server speaks first (greetings of 1, 275, 65536 bytes) while the client only reads; class = (concurrency, who speaks first, per direction write size/read buffer/length class). Passthrough: grammar-generated requests of C02 plus websocket upgrades on other paths / plain and other-protocol requests on the streaming path through the backend binary to a raw recording backend under the request fidelity oracle, plus three uploads whose bodies take 11-14 s to arrive (1 KiB/s, a 10.7 s pause, chunked) and one response produced over 14 s (observed only). E2: connection.Handler/DialWebsocket/WebsocketNetConn in-process with empty writes, 1-byte reads, raw gorilla peers interleaving binary/ping/pong frames, small Reads followed by io.Copy / bufio.Reader.WriteTo on the same connection, single writes up to 16 MiB")
 	r.Assume("passthrough: well-formed requests only (C02 generator); hop-by-hop fields are legitimately removed, upgrade requests keep Connection/Upgrade; X-Forwarded-For may gain the proxy's client address after the sender's values; only HTTP/1.1 towards the backend binary (h2c not exercised)")
 	r.Assume("a stream that stops making progress for 20 s (E1) / 10 s (E2) counts only if the same connection plan stalls again when re-run alone")
 	bins := bridgeBuild(r)
